@@ -17,6 +17,7 @@ itself (always true for valid-UTF-8 `p`).
 import Golib.Proof.C05Exact
 import Golib.Proof.C05Search
 import Golib.Proof.C05Aligned
+import Golib.Proof.C05Facts
 
 namespace Golib.C05
 open Golib
@@ -278,5 +279,11 @@ example : (Trie.ofPatterns [[104, 101], [115, 104, 101], [104, 101, 114, 115]]).
       (fun t => t.fuzzySearch [115, 104, 101])
     = some [[115, 104, 101], [104, 101], [104, 101, 114, 115]] := by
   decide +kernel
+
+/-- The source expressions and statements of `algz/trie.go` the model is written against
+(re-extracted by go/ast on every run into `Golib/Gen/FactsC05.lean`) are the ones the model
+mirrors; a revert of F3 / F11 or a single-token change in one of them breaks this obligation
+independently of the random search. -/
+theorem c05_facts : SourceFacts := c05_facts_holds
 
 end Golib.C05
